@@ -385,15 +385,19 @@ def main(ck):
             reported += 1
             ck.violation({"kind": "direct-oracle", "what": what, "case_index": i, "case": cases[i], "matched_signature": fid,
                           "how": "VERIF_SEED=%d harness/cmd/c05 cases %d (case %d of the stream)" % (ck.seed, n, i)})
-    if mism and not any(i in [x[0] for x in oracle_fail] for i in mism):
-        i = mism[0]
+    # a disagreeing case that also fails the direct oracle is reported there; every OTHER disagreeing case is a broken
+    # correspondence (one overlapping case must not hide the rest)
+    ofail = {x[0] for x in oracle_fail}
+    rest = [i for i in mism if i not in ofail]
+    if len(rest) < len(mism):
+        ck.notes.append("%d cases disagree with both model variants and also fail the direct oracle (reported above)" % (len(mism) - len(rest)))
+    if rest:
+        i = rest[0]
         ck.broken.append("correspondence C05: model and implementation differ on case %d (%s)" % (i, cases[i]["kind"]))
         ck.nofail_detail = {"kind": "correspondence", "case_index": i, "case": cases[i],
                             "explanation": "the implementation's observable differs from both model variants; the direct oracles "
                                            "(rotation permutes the group, codec round-trips, committed entries are replayed or already "
                                            "applied, ack only after own rows applied) found no failing input"}
-    elif mism:
-        ck.notes.append("%d cases disagree with both model variants and also fail the direct oracle (reported above)" % len(mism))
 
     # coverage
     def nontrivial(c):
